@@ -121,6 +121,7 @@ func (m *Matcher) Loop() {
 				m.mergerCache[patternString] = merger
 			}
 			merger.final = request.final
+			verifPoint("loop.publish", merger.Length(), count)
 			m.eventBox.Set(EvtSearchFin, merger)
 		}
 	}
@@ -222,6 +223,7 @@ func (m *Matcher) scan(request MatchRequest) (*Merger, bool) {
 			break
 		}
 
+		verifPoint("scan.counted", count, numChunks)
 		if m.reqBox.Peek(reqReset) {
 			return nil, wait()
 		}
